@@ -990,6 +990,13 @@ func lockedRunCase(id string, in lkInput) Case {
 				tags["erc20-route-send:coins-converted"] = true
 			}
 		}
+		// a merged grant adds its own release events to the account's: at every instant after both schedules have started
+		// the account releases (vests / unlocks) the sum of what it released before and what the grant as signed releases
+		if ok && (op.Op == "grant" || (op.Op == "into" && op.Merge)) && pre.va != nil && post.va != nil {
+			if m := lkMergeAdditive(pre.va, post.va, e.t0.Unix()+op.Sched.Start, lkPeriods(op.Sched.Lockup), lkPeriods(op.Sched.Vesting), post.now); m != "" {
+				fail(i, op, m)
+			}
+		}
 		obsAll = append(obsAll, post.obs(st.err))
 		res := "ok"
 		if !ok {
@@ -1947,4 +1954,75 @@ func lockedDriver(cfg Config, out *Out) error {
 		out.Emit(lockedRunCase(fmt.Sprintf("s%d-%d", cfg.Seed, i), lkGen(r.Fork())))
 	}
 	return nil
+}
+
+
+// lkRead: a schedule as a step function: the sum of the periods that have ended by t (own reader, independent of the
+// implementation's ReadSchedule)
+func lkRead(start int64, ps sdkvesting.Periods, t int64) sdk.Coins {
+	out := sdk.NewCoins()
+	at := start
+	for _, p := range ps {
+		at += p.Length
+		if at <= t {
+			out = out.Add(p.Amount...)
+		}
+	}
+	return out
+}
+
+// lkMergeAdditive checks, at every event time of the three schedules involved and at the block time (only instants
+// strictly after both starts), that the merged account's vesting and lockup schedules release exactly the sum.
+func lkMergeAdditive(pre, post *vestingtypes.ClawbackVestingAccount, gStart int64, gLock, gVest sdkvesting.Periods, now int64) string {
+	// a message without lockup (vesting) periods means: everything unlocks (vests) at the start
+	sum := func(ps sdkvesting.Periods) sdk.Coins {
+		t := sdk.NewCoins()
+		for _, p := range ps {
+			t = t.Add(p.Amount...)
+		}
+		return t
+	}
+	if len(gLock) == 0 {
+		gLock = sdkvesting.Periods{{Length: 0, Amount: sum(gVest)}}
+	}
+	if len(gVest) == 0 {
+		gVest = sdkvesting.Periods{{Length: 0, Amount: sum(gLock)}}
+	}
+	after := pre.StartTime.Unix()
+	if gStart > after {
+		after = gStart
+	}
+	probes := map[int64]bool{now: true}
+	add := func(start int64, ps sdkvesting.Periods) {
+		at := start
+		for _, p := range ps {
+			at += p.Length
+			probes[at], probes[at-1], probes[at+1] = true, true, true
+		}
+	}
+	add(pre.StartTime.Unix(), pre.LockupPeriods)
+	add(pre.StartTime.Unix(), pre.VestingPeriods)
+	add(gStart, gLock)
+	add(gStart, gVest)
+	var ts []int64
+	for t := range probes {
+		if t > after {
+			ts = append(ts, t)
+		}
+	}
+	sort.Slice(ts, func(i, j int) bool { return ts[i] < ts[j] })
+	for _, t := range ts {
+		for _, k := range []struct {
+			name        string
+			a, b, c     sdkvesting.Periods
+		}{{"vests", pre.VestingPeriods, gVest, post.VestingPeriods}, {"unlocks", pre.LockupPeriods, gLock, post.LockupPeriods}} {
+			want := lkRead(pre.StartTime.Unix(), k.a, t).Add(lkRead(gStart, k.b, t)...)
+			got := lkRead(post.StartTime.Unix(), k.c, t)
+			if !want.IsEqual(got) {
+				return fmt.Sprintf("after the merge the account %s %s by time %d, but the account before (%s) plus the grant as signed (%s) release %s",
+					k.name, got, t, lkRead(pre.StartTime.Unix(), k.a, t), lkRead(gStart, k.b, t), want)
+			}
+		}
+	}
+	return ""
 }
